@@ -97,8 +97,6 @@ func (c *Ctx) RuleLimitRead() *Result {
 				switch {
 				case isFn(f, "io", "LimitReader"), isFn(f, "io", "CopyN"), isFn(f, "io", "ReadFull"), isFn(f, "io", "ReadAtLeast"):
 					what = qualName(f)
-				case isMeth(f, "bufio", "Reader", "ReadLine"):
-					what = "bufio.(*Reader).ReadLine (a long line arrives in pieces)"
 				}
 			}
 			if al, ok := in.(*ssa.Alloc); ok && isNamed(derefType(al.Type()), "io", "LimitedReader") {
@@ -111,7 +109,7 @@ func (c *Ctx) RuleLimitRead() *Result {
 		})
 	}
 	if n == 0 {
-		res.ok("repository:no size-limited read", "-", fmt.Sprintf("%d functions scanned: no io.LimitReader, CopyN, ReadFull, LimitedReader or ReadLine", res.Instances))
+		res.ok("repository:no size-limited read", "-", fmt.Sprintf("%d functions scanned: no io.LimitReader, CopyN, ReadFull or LimitedReader", res.Instances))
 	}
 	return res
 }
@@ -275,8 +273,35 @@ func (c *Ctx) RuleBuildVars() *Result {
 					}
 				}
 			}
-			if stored {
-				res.ok(key2, c.P.FnPos(sf), "the first parameter is assigned to the Version field of the root command")
+			// ... and nothing else is: the semver guard of self-update reads this field
+			other := ""
+			for _, fn2 := range c.P.RepoFns {
+				allInstrs(fn2, func(in2 ssa.Instruction) {
+					st, ok := in2.(*ssa.Store)
+					if !ok {
+						return
+					}
+					fa, ok := st.Addr.(*ssa.FieldAddr)
+					if !ok || !isNamed(fa.X.Type(), cobraPkg, "Command") {
+						return
+					}
+					stt, ok := derefType(fa.X.Type()).Underlying().(*types.Struct)
+					if !ok || stt.Field(fa.Field).Name() != "Version" {
+						return
+					}
+					if len(sf.Params) > 0 && st.Val == ssa.Value(sf.Params[0]) {
+						return
+					}
+					if _, isConst := st.Val.(*ssa.Const); isConst && fn2 != sf {
+						return
+					}
+					other = c.P.InstrPos(st)
+				})
+			}
+			if stored && other != "" {
+				res.bad(key2, c.P.FnPos(sf), fmt.Sprintf("the Version field of a command is also assigned something other than the build version (%s): self-update hands that field to the semver comparison, and a decorated version (a commit suffix is a semver pre-release, which sorts before the release itself) makes the current release look newer than the running build, so it is reinstalled on every run", other))
+			} else if stored {
+				res.ok(key2, c.P.FnPos(sf), "the first parameter is assigned to the Version field of the root command, and nothing else is")
 			} else {
 				res.bad(key2, c.P.FnPos(sf), load.FnName(sf)+" no longer assigns the version it is handed to the root command: self-update compares every release with the placeholder and reinstalls or downgrades")
 			}
